@@ -16,8 +16,8 @@ P = {
    note='Environment model: the std::fs::File field of SqPackData is an in-memory file in the scratch copy. Outside the claim: GameData::extract (dat selection, files on disk), block tables other than the listed ones; real deflate streams are replaced by an abstract oracle (only the call contract is checked).',
    ref="DESIGN.md section 4, C02"),
  "C03": dict(
-   text='Bounded model checking of the ZiPatch command decoding, of the patch data block reader (alignment arithmetic), of the two file-writing kernels of apply over an in-memory file model, and (thorough tier) of ZiPatch::apply as a whole for patches made of a target-info command and one delete-data / expand-data / delete-file / make-directory command: exact target file name from category / expansion / chunk / platform / file number, every byte of the touched file for symbolic previous contents, file count, Ok(()).',
-   note='Environment and dependency models (listed per harness in the evidence): std::fs of patch.rs -> in-memory file table; format! -> digit-emission model validated against std on every run; layout-only models (repr(u8) on three enums of patch.rs, a niche-free binrw::Error) without which parsed values are not constants for symbolic execution (DESIGN.md section 2). Block offsets / counts / ids are concrete per harness. Outside the claim: apply for add-data, header-update and add-file commands (harnesses written; out of memory in the SAT back end: DESIGN.md section 4), several commands per patch, chains of patches, remove-all.',
+   text='Bounded model checking of the ZiPatch command decoding, of the patch data block reader (alignment arithmetic), of the two file-writing kernels of apply over an in-memory file model, and (thorough tier) of ZiPatch::apply as a whole for patches made of a target-info command and one delete-data / expand-data / add-file / delete-file / make-directory command (and of two target-info commands in sequence): exact target file name from category / expansion / chunk / platform / file number, every byte of the touched file for symbolic previous contents, file count, Ok(()).',
+   note='Environment and dependency models (listed per harness in the evidence): std::fs of patch.rs -> in-memory file table; format! -> digit-emission model validated against std on every run; layout-only models (repr(u8) on three enums of patch.rs, a niche-free binrw::Error) without which parsed values are not constants for symbolic execution (DESIGN.md section 2). Block offsets / counts / ids are concrete per harness. Outside the claim: apply for add-data and header-update commands (harnesses written; out of memory in the SAT back end: DESIGN.md section 4), several commands per patch, chains of patches, remove-all.',
    ref="DESIGN.md section 4, C03"),
  "C04": dict(
    text='Bounded model checking of the writer/reader law for patch data blocks: write_data_block_patch followed by read_data_block_patch returns the same bytes and consumes exactly what was written, for enumerated lengths around the 128-byte alignment boundary with symbolic content.',
